@@ -14,7 +14,7 @@ ALPHA = [ll.LF, ll.CR, ll.A, ll.E2, ll.ZH, ll.EMO]
 
 def random_text(rng):
     n = 20 + rng.below(280)
-    style = rng.below(4)
+    style = rng.below(5)
     out = []
     for _ in range(n):
         r = rng.below(100)
@@ -24,6 +24,8 @@ def random_text(rng):
             out.append(ll.LF if r < 15 else rng.choice([ll.A, "z", "\t", ll.E2, ll.ZH, ll.EMO, ll.CR]))
         elif style == 2:    # dense line breaks
             out.append(rng.choice([ll.LF, ll.CR, "\r\n", ll.A, ll.ZH]))
+        elif style == 4:    # byte-class edges
+            out.append(ll.LF if r < 8 else "\r\n" if r < 12 else ll.CR if r < 14 else rng.choice(ll.EDGE + [ll.A, " "]))
         else:               # few breaks, wide characters
             out.append(ll.LF if r < 3 else ll.CR if r < 5 else rng.choice([ll.E2, ll.ZH, ll.EMO, " ", "\x0b", "\x0c", "\x85", ll.A]))
     return "".join(out)
@@ -63,6 +65,13 @@ def check(ctx):
         seen.add(h)
         strs.append(s)
         cases.append("P " + h)
+    # byte-class edges: every string of <= 3 characters over {LF, CR, a} + EDGE (first / last continuation bytes etc.)
+    for s in ll.all_strings([ll.LF, ll.CR, ll.A] + ll.EDGE, 2 if ctx.tier == "quick" else 3):
+        h = ll.hx(s)
+        if h not in seen:
+            seen.add(h)
+            strs.append(s)
+            cases.append("P " + h)
     # the unit-test strings of position.rs and a few classics
     for s in ["a\rb\nc\r\nd嗨", "abcd嗨", "\n\n", "\r\n\r\n", "\r\r\n\n\r", "x\r\n", "\r\n" * 40, "a" * 300, "\n" * 300]:
         h = ll.hx(s)
